@@ -941,7 +941,14 @@ func verifStageMatrix2(r *gen.Rand, kind, variant int) []vsOp {
 		F.time -= 259200
 		prep(F)
 		recv(F, 0, h)
-		ops = append(ops, vsOp{kind: "RS"})
+		if pickN(2) == 0 {
+			ops = append(ops, vsOp{kind: "RS"})
+		} else {
+			// ... or no restart: another day passes and the cache is cleaned (what the first half made the
+			// receiver read back from its log has expired again) before the second half comes
+			ops = append(ops, vsOp{kind: "AA", num: 86400}, vsOp{kind: "CC"})
+			F.time -= 86400 // (the file is a day older too)
+		}
 		prep(F)
 		recv(F, h, len(F.content))
 		ops = append(ops, vsOp{kind: "ST"}, vsOp{kind: "SQ", name: F.name, num: -3600})
